@@ -25,17 +25,18 @@ GROUPS = {"fan": "(check_fan pinned)", "sess": "check_sess", "cpub": "check_cpub
 EXPLAIN = {"fan": "(explain_fan pinned)", "sess": "explain_sess", "cpub": "explain_cpub"}
 CASES = {"quick": 400, "thorough": 4000}
 RULE = ("cases: fan = populations of 2-5 raw clients (1-3 subscriptions each over 14 literal/+/# filters, QoS 0/1/2, some "
-        "unregistered by the admin endpoint) x 1-3 HTTP publishes (QoS 0/1, rarely 2) on a real loopback broker; "
+        "unregistered by the admin endpoint, some unsubscribing or disconnecting before the publish, nested filters below a node whose only subscriber leaves) x 1-3 HTTP publishes (QoS 0/1, rarely 2) on a real loopback broker; "
         "sess = one QoS-1 subscriber x publish/PUBACK/await-retransmission/quiet schedules under the real 200 ms ticker; "
         "cpub = client PUBLISH bursts (QoS 0/1/2, chosen packet ids) x request/byte limiter x pipeline verdict pass/drop/disconnect. "
         "non-trivial = some subscriber matched (fan) / non-empty schedule; classes add (fan) mixed-QoS(+1) overlapping(+2) "
-        "unregistered(+4) several-receivers(+8), (sess) retransmission-seen(+1) ack(+2) quiet(+4) qos0-sub(+8), "
+        "unregistered/unsubscribed/left(+4) several-receivers(+8), (sess) retransmission-seen(+1) ack(+2) quiet(+4) qos0-sub(+8), "
         "(cpub) puback(+1) limiter-drop(+2) disconnect(+4) no-pipeline(+8); distinct = distinct (group, input) hashes among non-trivial cases")
 TRUSTED_BASE = [
     "models coq/model/Broker.v (fan-out) and coq/model/Session.v (pending/resend, client PUBLISH) are hand-written; tied to "
     "pkg/object/mqttproxy on every run by the correspondence (sampled): real Broker on loopback, raw TCP clients with the paho codec",
-    "subscriptions are modelled as a finite map (client, filter) -> QoS; filter/topic matching is a per-case oracle computed with the "
-    "real TopicManager (the trie itself is C14's subject)",
+    "subscriptions are a finite map (client, filter) -> QoS replayed from the harness' own record of SUBSCRIBE/UNSUBSCRIBE/disconnect; "
+    "filter/topic matching is the declarative MQTT matcher of EG.model.Topic (C14), independent of the code; the real TopicManager's "
+    "single-subscription verdict is only cross-checked against it",
     "visit order of Go maps is not controllable: correspondence is existential over all visit orders / last-visited choices",
     "the client publish limiter is C09's model (coq/model/RL.v) at elapsed time 0 (period chosen longer than the run)",
     "quiescence of the broker is decided from goroutine dumps (all broker goroutines parked) and PINGREQ/PINGRESP barriers",
@@ -85,11 +86,12 @@ def encode(c):
         ps = []
         for n, p in enumerate(pubs):
             row = match[n] if n < len(match) else []
-            ps.append(Rec(fp_qos=Z(p["qos"]),
+            ps.append(Rec(fp_topic=S(p["topic"]), fp_qos=Z(p["qos"]),
                           fp_match=L([T(S(f), B(m)) for f, m in zip(filters, row)]),
                           fp_recv=L([S(x) for x in (recv[n] if n < len(recv) else [])])))
         return Rec(fc_clients=L([Rec(fcl_cid=S(cl["cid"]), fcl_connected=B(not cl.get("gone")),
-                                     fcl_subs=L([T(S(s["f"]), Z(s["q"])) for s in cl.get("subs") or []]))
+                                     fcl_subs=L([T(S(s["f"]), Z(s["q"])) for s in cl.get("subs") or []]),
+                                     fcl_unsubs=L([S(f) for f in cl.get("unsubs") or []]), fcl_left=B(cl.get("left", False)))
                                  for cl in i.get("clients") or []]),
                    fc_pubs=L(ps), fc_bad=B(bad))
     if g == "sess":
